@@ -1,7 +1,7 @@
 #!/usr/bin/env python3
 """Applies every seeded change under /verif/seeded/<name>/patch.diff to /repo in turn, runs the quick check of the
 property it breaks, records the outcome, and always reverts /repo (git checkout -- .). Writes /verif/seeded/RESULTS.json."""
-import json, os, subprocess, sys
+import json, os, shutil, subprocess, sys, tempfile
 HERE = os.path.dirname(os.path.dirname(os.path.abspath(__file__)))
 SEEDED = os.path.join(HERE, 'seeded')
 only = sys.argv[1:]
@@ -19,13 +19,17 @@ for name in sorted(os.listdir(SEEDED)):
         subprocess.run(['git', '-C', '/repo', 'apply', os.path.join(d, 'patch.diff')], check=True)
         out[name] = {'property': prop, 'by_check': {}, 'detected': False}
         for chk in checks:
-            p = subprocess.run([os.path.join(HERE, 'check'), chk, '--tier', meta.get('tier', 'quick')], capture_output=True, text=True, cwd=HERE)
+            env = dict(os.environ)
+            tmp = tempfile.mkdtemp(prefix='runseeds_', dir='/tmp')
+            env.update(PVF_EVIDENCE_DIR=os.path.join(tmp, 'evidence'), PVF_REPLAY_DIR=os.path.join(tmp, 'replays'))      # the evidence of a seeded tree is not evidence
+            os.makedirs(env['PVF_EVIDENCE_DIR'])
+            p = subprocess.run([os.path.join(HERE, 'check'), chk, '--tier', meta.get('tier', 'quick')], capture_output=True, text=True, cwd=HERE, env=env)
+            shutil.rmtree(tmp, ignore_errors=True)
             viol = [l for l in p.stdout.splitlines() if l.startswith('VIOLATION')]
             what = [l.strip()[:300] for l in p.stdout.splitlines() if l.startswith('  what:')]
             det = p.returncode == 1 and bool(viol)
             out[name]['by_check'][chk] = {'exit': p.returncode, 'detected': det, 'first_violation': (what or [''])[0]}
             out[name]['detected'] = out[name]['detected'] or det
-            subprocess.run('rm -f %s/replays/%s-*.json' % (HERE, chk), shell=True)
         out[name]['exit'] = max(v['exit'] == 1 for v in out[name]['by_check'].values()) and 1 or max(v['exit'] for v in out[name]['by_check'].values())
     finally:
         subprocess.run(['git', '-C', '/repo', 'checkout', '--', '.'])
